@@ -218,7 +218,7 @@ def compile_guarded(text):
 # the operands each of these instructions cannot do without (machine.py dereferences them): an accepted program in which
 # one is missing is a compiler-made fault however it shows at run time (`repeat with x in "A" and "B"` once compiled to a
 # POP without a destination, so that x never got a value and the VM stopped "pushing None")
-NEEDS = {'POP': (0,), 'PUSH': (0,), 'MOVE': (0, 1), 'MOVEQ': (1,), 'JSR': (0,), 'JUMP': (0, 1), 'PARAM': (0,), 'OP': (0,)}
+from harness.c05 import NEEDS
 
 
 def malformed(program):
